@@ -34,6 +34,8 @@ Lemma K_ae_val i v : ae_ra1 i v = v /\ ae_dec1 i v = v /\ ae_ra2 i v = v /\ ae_d
 Proof. repeat split; reflexivity. Qed.
 Lemma K_ix_org i v : ix_org i v = v /\ ix_org_idx0 i = i. Proof. split; reflexivity. Qed.
 Lemma K_tdm_inv_pos i : tdm_inv_pos i = i. Proof. reflexivity. Qed.
+Lemma K_pf_ns_bad n : pf_ns_bad n = negb (n =? 1)%Z. Proof. reflexivity. Qed.
+Lemma K_ix_shape : ix_shape = true. Proof. reflexivity. Qed.
 Lemma K_tdm_src_keep v : tdm_src_keep v = v /\ tdm_src_keep_idx0 = 0%Z. Proof. split; reflexivity. Qed.
 Lemma K_tdm_new_evt v : tdm_new_evt v = v. Proof. reflexivity. Qed.
 
@@ -849,7 +851,7 @@ Section RunSpec.
   Lemma run_psi (evs : list E) c inc :
     ns = 1 -> inc_ok ns (length evs) inc -> run_ok (MPsi c) srcs evs inc.
   Proof.
-    intros H1 Hinc. unfold run_ok. cbn [run]. fold ns. rewrite H1. cbn [Nat.eqb negb].
+    intros H1 Hinc. unfold run_ok. cbn [run]. fold ns. rewrite K_pf_ns_bad, H1. cbn [Z.of_nat Pos.of_succ_nat Z.eqb Pos.eqb negb].
     eapply finish_ci with (f := cidx (fun _ e => c e) srcs evs).
     - unfold tab. cbn [seq map]. f_equal.
       apply (map_seq_nth c (cidx (fun _ e => c e) srcs evs 0) evs 0).
@@ -1141,6 +1143,98 @@ Proof.
 Qed.
 
 (* ------------------------------------------------------------------ *)
+(* select_events without ret_original_evt_idxs: the separate branch of the
+   intersection returns what the flag=True branch returns, minus the original
+   indices — for every tree, every input and every error                   *)
+
+Lemma bind_ok {A B} (a : res A) (f : A -> res B) r :
+  (do x <- a; f x) = Ok r -> exists x, a = Ok x /\ f x = Ok r.
+Proof. destruct a as [x|e]; cbn [bind]; [intros H; now exists x|discriminate]. Qed.
+
+Lemma take_nat_inv {A} (l : list A) idx out :
+  take_nat l idx = Ok out -> length out = length idx /\ Forall (fun i => i < length l) idx.
+Proof.
+  unfold take_nat. revert out. induction idx as [|i idx IH]; intros out H; cbn [mapM] in H.
+  - inversion H. split; [reflexivity|constructor].
+  - destruct (nth_error l i) as [x|] eqn:Ex; [|discriminate]. cbn [bind] in H.
+    apply bind_ok in H as (xs & Exs & H). inversion H; subst. destruct (IH xs Exs) as (L & F).
+    split; [cbn [length]; now rewrite L|]. constructor; [apply nth_error_Some; congruence|assumption].
+Qed.
+
+Definition sel_shape {E} (ne : nat) (r : sel E) : Prop :=
+  length (s_orig r) = length (s_events r)
+  /\ Forall (fun o => (0 <= o < Z.of_nat ne)%Z) (s_orig r).
+
+Lemma finish_shape {E} (evs : list E) M r : finish evs M = Ok r -> sel_shape (length evs) r.
+Proof.
+  unfold finish. destruct (select_core (length evs) M) as (orig, pairs).
+  intros H. apply bind_ok in H as (ev' & Et & H). inversion H; subst. unfold sel_shape. cbn [s_orig s_events].
+  destruct (take_nat_inv _ _ _ Et) as (L & F). split; [now rewrite map_length|].
+  apply Forall_forall. intros o Ho. apply in_map_iff in Ho as (i & <- & Hi).
+  rewrite Forall_forall in F. specialize (F i Hi). lia.
+Qed.
+
+Lemma mapM_length {A B} (f : A -> res B) l out : mapM f l = Ok out -> length out = length l.
+Proof.
+  revert out; induction l as [|x l IH]; intros out H; cbn [mapM] in H; [now inversion H|].
+  apply bind_ok in H as (y & _ & H). apply bind_ok in H as (ys & Eys & H). inversion H; subst.
+  cbn [length]. now rewrite (IH ys Eys).
+Qed.
+
+Lemma mapM_In {A B} (f : A -> res B) l out y :
+  mapM f l = Ok out -> In y out -> exists x, In x l /\ f x = Ok y.
+Proof.
+  revert out; induction l as [|x l IH]; intros out H Hy; cbn [mapM] in H; [inversion H; subst; contradiction|].
+  apply bind_ok in H as (y0 & Ey0 & H). apply bind_ok in H as (ys & Eys & H). inversion H; subst.
+  destruct Hy as [<-|Hy]; [exists x; split; [now left|assumption]|].
+  destruct (IH ys Eys Hy) as (x' & Hx' & Ex'). exists x'. split; [now right|assumption].
+Qed.
+
+Lemma take_wrap_In {A} (l : list A) i a : take_wrap l i = Ok a -> In a l.
+Proof.
+  unfold take_wrap. intros H. apply bind_ok in H as (k & _ & H).
+  destruct (nth_error l k) eqn:Ek; [|discriminate]. inversion H; subst. eapply nth_error_In; eassumption.
+Qed.
+
+Lemma run_shape {S E} (m : meth S E) : forall srcs evs inc r,
+  run m srcs evs inc = Ok r -> sel_shape (length evs) r.
+Proof.
+  induction m as [|kd c|bs cra crab cdec|c|c|a IHa b IHb]; intros srcs evs inc r H; cbn [run] in H.
+  - inversion H; subst. unfold sel_shape. cbn. split; [now rewrite map_length, seq_length|].
+    apply Forall_forall. intros o Ho. apply in_map_iff in Ho as (i & <- & Hi). apply in_seq in Hi. lia.
+  - apply bind_ok in H as (m1 & _ & H). now apply finish_shape in H.
+  - apply bind_ok in H as (mra & _ & H). apply bind_ok in H as (m1 & _ & H). now apply finish_shape in H.
+  - destruct (pf_ns_bad _); [discriminate|]. now apply finish_shape in H.
+  - apply bind_ok in H as (vals & _ & H). destruct (existsb _ _); [discriminate|]. now apply finish_shape in H.
+  - apply bind_ok in H as (r1 & E1 & H). apply bind_ok in H as (r2 & E2 & H).
+    apply bind_ok in H as (org & Eo & H). inversion H; subst. unfold sel_shape. cbn [s_orig s_events].
+    destruct (IHa _ _ _ _ E1) as (La & Fa). destruct (IHb _ _ _ _ E2) as (Lb & Fb).
+    split; [rewrite (mapM_length _ _ _ Eo); exact Lb|].
+    apply Forall_forall. intros o Ho. destruct (mapM_In _ _ _ _ Eo Ho) as (i & _ & Ei).
+    apply take_wrap_In in Ei. rewrite Forall_forall in Fa. now apply Fa.
+Qed.
+
+Lemma mapM_take_ok (l : list Z) idxs :
+  Forall (fun o => (0 <= o < Z.of_nat (length l))%Z) idxs ->
+  exists out, mapM (fun i => take_wrap l (ix_org_idx0 i)) idxs = Ok out.
+Proof.
+  induction 1 as [|i idxs Hi F (out & IH)]; [now exists []|].
+  cbn [mapM]. rewrite (proj2 (K_ix_org _ 0%Z)). unfold take_wrap at 1. rewrite wrap_Z by assumption. cbn [bind].
+  destruct (nth_error l (Z.to_nat i)) as [x|] eqn:Ex; [|apply nth_error_None in Ex; lia].
+  cbn [bind]. rewrite IH. cbn [bind]. now eexists.
+Qed.
+
+Theorem run_nr_eq {S E} (m : meth S E) : forall srcs evs inc,
+  run_nr m srcs evs inc = do r <- run m srcs evs inc; Ok (s_events r, s_tbl r).
+Proof.
+  induction m as [|kd c|bs cra crab cdec|c|c|a IHa b IHb]; intros srcs evs inc; try reflexivity.
+  cbn [run_nr run]. rewrite IHa. destruct (run a srcs evs inc) as [r1|e] eqn:E1; [|reflexivity].
+  cbn [bind fst snd]. rewrite IHb. destruct (run b srcs (s_events r1) (Some (s_tbl r1))) as [r2|e] eqn:E2; [|reflexivity].
+  cbn [bind]. destruct (run_shape a _ _ _ _ E1) as (La & _). destruct (run_shape b _ _ _ _ E2) as (_ & Fb).
+  rewrite <- La in Fb. destruct (mapM_take_ok _ _ Fb) as (org & Eo). rewrite Eo. reflexivity.
+Qed.
+
+(* ------------------------------------------------------------------ *)
 (* TrialDataManager.initialize_trial: selection, sort by the index field,
    re-assignment of the event indices                                  *)
 Require Import Coq.Logic.FinFun.
@@ -1304,7 +1398,7 @@ Section TDM.
       eexists. split; [reflexivity|]. cbn [fst snd]. split; [reflexivity|]. exists d. split; [lia|assumption]. }
     set (orig2 := map (fun z => nth (Z.to_nat z) o1 0) p).
     exists r1, ev2, t2, orig2. split; [exact E1|]. split.
-    { unfold tdm_init. rewrite E1. cbn [bind]. fold ev1 t1 p. rewrite Eev2. cbn [bind].
+    { unfold tdm_init. rewrite run_nr_eq, E1. cbn [bind fst snd]. fold ev1 t1 p. rewrite Eev2. cbn [bind].
       rewrite Einv. cbn [bind]. rewrite Et2. reflexivity. }
     split.
     { rewrite <- Ho1. unfold orig2.
@@ -1361,7 +1455,7 @@ Section TDM.
   Lemma tdm_nosort (m : meth S E) (evs : list E) :
     tdm_init argsort (Some m) srcs evs false
     = do r <- run m srcs evs None; Ok (s_events r, s_tbl r).
-  Proof. unfold tdm_init. destruct (run m srcs evs None); reflexivity. Qed.
+  Proof. unfold tdm_init. rewrite run_nr_eq. destruct (run m srcs evs None); reflexivity. Qed.
 
   Lemma tdm_nosel (evs : list E) (index_field : bool) :
     exists ev2, tdm_init argsort None srcs evs index_field = Ok (ev2, full_tbl ns (length ev2))
